@@ -2,9 +2,9 @@
 package c07
 
 import (
-	"io"
 	"errors"
 	"fmt"
+	"io"
 	"time"
 
 	"verifharness/explore"
@@ -175,6 +175,65 @@ func runFile(c *fw.Ctx, f filedrv.File) {
 			}
 		}
 	}
+	// (f2) "stops reading at that record": once the callback has failed nothing more is taken from the reader, and
+	// what comes after the record — a damaged sync marker, a marker that never arrives — cannot replace the
+	// callback's error
+	if !f.Long {
+		for i := 0; i < total; i++ {
+			if f.Big && i%211 != 0 && i != total-1 {
+				continue
+			}
+			mode := i % 3 // the unbuffered readers: what the library takes is what it asked for
+			c.Eval(1)
+			desc := fmt.Sprintf("file %s callback fails at record %d; bytes taken from the reader afterwards", f.Name, i)
+			locus := f.Codec + "|callback-error|reader-position"
+			c.Begin(locus, desc)
+			res, atFail, atReturn := filedrv.ReadStopping(f.Data, mode, f.SC.Type, i, errSentinel)
+			if report(c, res, locus, desc, desc) {
+				continue
+			}
+			c.Nontrivial(desc)
+			if res.Err != errSentinel || len(res.Records) != i+1 {
+				c.Violation("callback-error-changed|"+locus, fmt.Sprintf("ReadFile returned %v after %d callbacks — %s", res.Err, len(res.Records), desc), desc)
+			} else if atReturn != atFail {
+				c.Violation("reading-continues-after-callback-error|"+locus, fmt.Sprintf("%d bytes had been taken from the reader when the callback failed, %d when ReadFile returned — %s", atFail, atReturn, desc), desc)
+			}
+		}
+		// the failing record is the last of its block and the block's marker is damaged / cut off
+		for k, b := range f.Layout.Blocks {
+			if f.Comp[k] == 0 {
+				continue
+			}
+			i := f.RecordsBefore(k+1) - 1
+			for vi, variant := range []string{"sync marker of that block damaged", "file ends right after that block's payload", "file ends inside that block's sync marker"} {
+				var d []byte
+				switch vi {
+				case 0:
+					d = append([]byte(nil), f.Data...)
+					d[b.PayloadEnd] ^= 1
+				case 1:
+					d = append([]byte(nil), f.Data[:b.PayloadEnd]...)
+				case 2:
+					d = append([]byte(nil), f.Data[:b.PayloadEnd+7]...)
+				}
+				c.Eval(1)
+				desc := fmt.Sprintf("file %s callback fails at record %d, the last of block %d; %s", f.Name, i, k, variant)
+				locus := f.Codec + "|callback-error|then-damage"
+				c.Begin(locus, desc)
+				res := filedrv.Read(d, (k+vi)%filedrv.NumReadModes, f.SC.Type, false, i, errSentinel)
+				if report(c, res, locus, desc, desc) {
+					continue
+				}
+				c.Nontrivial(desc)
+				if len(res.Records) != i+1 {
+					c.Violation("callback-error-not-stopping|"+locus, fmt.Sprintf("%d callbacks, expected exactly %d — %s", len(res.Records), i+1, desc), desc)
+				}
+				if res.Err != errSentinel {
+					c.Violation("callback-error-changed|"+locus, fmt.Sprintf("ReadFile returned %v, expected the callback's error unchanged — %s", res.Err, desc), desc)
+				}
+			}
+		}
+	}
 	// bit flips
 	data := make([]byte, len(f.Data))
 	pstride := 23
@@ -320,14 +379,18 @@ func init() {
 			if tier == "thorough" {
 				n = 4
 			}
-			return fmt.Sprintf("file family {3 schemas} × {null,deflate,snappy} × every composition of <=%d records into blocks (+70-record blocks; + per codec two Big files: a 3000-record highly compressible block, and a 3/90/3-record file whose middle block exceeds 100 KiB on the wire so that the reader's buffer grows mid-block — for Big files payload bytes are flipped at every 23rd / 499th site, all other sites fully), written by the reference writer; per file: intact read under 6 readers (full, 1-byte, data+EOF, *bytes.Buffer, 16-byte *bufio.Reader, every other Read returning (0, nil)) × value/pointer target; files with EMPTY blocks (count 0) first, between and after full blocks; per codec a file of 2400 blocks of changing size (intact reads, callback failures and damage at spread sites only); a complete read into a caller-owned destination already used by a read abandoned at every record index; a second complete ReadFile of the same file started from inside the callback of every record index (two live readers of one codec); callback failing at every record index with the caller's own error value and with io.EOF / io.ErrUnexpectedEOF / io.ErrShortWrite; EVERY BIT of every block sync marker, of the header sync (when a block exists), of every snappy CRC, of every compressed payload byte (deflate, snappy) and of the magic flipped one at a time; metadata variants (schema removed, codec absent/unknown spellings, reordered, extra keys, and the metadata map written in every composition of its entries into map blocks, plain and byte-size-prefixed); a case is one damaged or intact file; non-trivial = ReadFile completed and its result was compared with the oracle", n)
+			return fmt.Sprintf("file family {3 schemas} × {null,deflate,snappy} × every composition of <=%d records into blocks (+70-record blocks; + per codec two Big files: a 3000-record highly compressible block, and a 3/90/3-record file whose middle block exceeds 100 KiB on the wire so that the reader's buffer grows mid-block — for Big files payload bytes are flipped at every 23rd / 499th site, all other sites fully), written by the reference writer; per file: intact read under 6 readers (full, 1-byte, data+EOF, *bytes.Buffer, 16-byte *bufio.Reader, every other Read returning (0, nil)) × value/pointer target; files with EMPTY blocks (count 0) first, between and after full blocks; per codec a file of 2400 blocks of changing size (intact reads, callback failures and damage at spread sites only); a complete read into a caller-owned destination already used by a read abandoned at every record index; a second complete ReadFile of the same file started from inside the callback of every record index (two live readers of one codec); callback failing at every record index with the caller's own error value and with io.EOF / io.ErrUnexpectedEOF / io.ErrShortWrite — also with the bytes taken from the reader counted (none after the failure) and, when the failing record is the last of its block, with that block's sync marker damaged, missing or cut; every ordered triple of six files that share one record name and one Go type but differ in their field lists, read one after the other; EVERY BIT of every block sync marker, of the header sync (when a block exists), of every snappy CRC, of every compressed payload byte (deflate, snappy) and of the magic flipped one at a time; metadata variants (schema removed, codec absent/unknown spellings, reordered, extra keys, and the metadata map written in every composition of its entries into map blocks, plain and byte-size-prefixed); a case is one damaged or intact file; non-trivial = ReadFile completed and its result was compared with the oracle", n)
 		},
 		Assumptions: []string{
 			"for a flipped payload bit the claim is made only when the reference decompressor (stdlib flate / golang/snappy + CRC) rejects the damaged payload; flips it accepts are counted, not judged",
 			"callback error must be returned unchanged: compared with ==",
 		},
-		NumCases: func(tier string) int { return len(family(tier)) },
+		NumCases: func(tier string) int { return len(family(tier)) + 1 },
 		RunCase: func(c *fw.Ctx, idx int) {
+			if idx == len(family(c.Tier)) {
+				runSameName(c)
+				return
+			}
 			runFile(c, family(c.Tier)[idx])
 		},
 		Budget: func(tier string) time.Duration { return 30 * time.Minute },
